@@ -132,3 +132,70 @@ def launcher_case(ctx, rng, explicit=None):
     ctx.sample({"class": "launcher", "states": states, "calls": log[:12]}, tag="launcher")
     for clause, msg, detail in problems:
         ctx.violation(clause, {"workload": "launcher", "states": states}, msg)
+
+
+# ------------------------------------------------------------------------------------------------------------------------------------------
+# start path: the real ProcessLauncher.start with the real telemetry devices; only the spawning of Elasticsearch is scripted
+START_STATES = ["alive", "dead-before-attach"]
+
+
+def _dead_pid():
+    """pid of a process that has already terminated and been reaped."""
+    import subprocess
+    import sys
+
+    p = subprocess.Popen([sys.executable, "-c", "pass"])
+    p.wait()
+    return p.pid
+
+
+def start_case(ctx, rng, explicit=None):
+    """Statement: "a start failure on any host ... is reported instead of an acknowledgement". `bin/elasticsearch -d` may exit 0 and leave a
+    pid file behind although the node died right away (bootstrap check, OOM): the node is then gone when the telemetry devices attach.
+    Such a start must fail - the launcher must not hand back a node that is not running."""
+    import os
+
+    from esrally.mechanic import java_resolver
+
+    states = explicit or [rng.choice(START_STATES) for _ in range(rng.randint(1, 3))]
+    cfg = config.Config()
+    cfg.add(config.Scope.application, "mechanic", "runtime.jdk", None)
+    cfg.add(config.Scope.application, "telemetry", "devices", [])
+    cfg.add(config.Scope.application, "telemetry", "params", {})
+    cfg.add(config.Scope.application, "system", "env.name", "verif")
+    root = str(ctx.scratch / "c12start")
+    os.makedirs(root, exist_ok=True)
+    pids = [os.getpid() if s == "alive" else _dead_pid() for s in states]
+    ncs = [provisioner.NodeConfiguration("tar", ["17"], True, "127.0.0.1", f"rally-node-{i}", os.path.join(root, f"n{i}"), os.path.join(root, f"n{i}", "install"), [os.path.join(root, f"n{i}", "data")])
+           for i in range(len(states))]
+    spawned = []
+    saved = (java_resolver.java_home, launcher.ProcessLauncher._start_process)
+    java_resolver.java_home = lambda *a, **k: (17, None)
+
+    def start_process(self, binary_path, env):
+        i = len(spawned)
+        spawned.append(binary_path)
+        return pids[i]
+
+    launcher.ProcessLauncher._start_process = start_process
+    err, nodes = None, None
+    try:
+        try:
+            nodes = launcher.ProcessLauncher(cfg).start(ncs)
+        except BaseException as e:  # noqa
+            err = e
+    finally:
+        java_resolver.java_home, launcher.ProcessLauncher._start_process = saved
+    problems = []
+    where = f"node processes at the time the telemetry attaches: {states}"
+    ctx.clause("launcher:dead-node-fails-start")
+    if "dead-before-attach" in states:
+        if err is None:
+            problems.append(("launcher:dead-node-fails-start", f"{where}: ProcessLauncher.start returned {len(nodes)} node(s) as started although the process of node {states.index('dead-before-attach')} no longer exists", None))
+    else:
+        if err is not None or len(nodes) != len(states) or [n.pid for n in nodes] != pids:
+            problems.append(("launcher:dead-node-fails-start", f"{where}: start of living nodes gave {err!r} / {nodes!r}", None))
+    ctx.case(["launcher-start", states], len(states) > 1, {"launcher-start", "launcher-start:" + "+".join(sorted(set(states)))})
+    ctx.sample({"class": "launcher-start", "states": states, "outcome": "raised " + type(err).__name__ if err is not None else "returned nodes"}, tag="launcher-start")
+    for clause, msg, detail in problems:
+        ctx.violation(clause, {"workload": "launcher-start", "states": states}, msg)
